@@ -395,7 +395,8 @@ func c16TextGen(r *vh.Rand, tier string, n int) []c16TextIn {
 		"9:00-10:00~", "mon-tue-wed", "mon0", "mon6", "mon9", "mon5-tue1", "mon2-tue1", "mon1-mon1", "mon3-mon3", "mon1-mon2", "MON", "mon ", " mon", "mo", "monn",
 		"mon12", "mon-", "-mon", "mon--tue", "9:00-10:00/4294967296", "9:00-10:00/4294967295", "9:00-10:00/007", "9:00-10:00/+2", "9:00-10:00/0", "9:00-10:00/00",
 		"0:00-24:00/24", "24:00-24:00", "24:00~24:00/3", "00:00~0:00", "9:00,mon", "mon,9:00,tue", "mon,9:00,10:00", "sun-sat,0:00", "fri5-thu", "thu-fri5",
-		"mon,tue,wed,thu,fri,sat,sun", "1:00,2:00,,3:00", "mon,,9:00", "9:00-10:00,,", "00:00~24:00/4", "mon,10:00,,fri,15:00", "mon-wed,fri,9:00-11:00/2"} {
+		"mon,tue,wed,thu,fri,sat,sun", "1:00,2:00,,3:00", "mon,,9:00", "9:00-10:00,,", "00:00~24:00/4", "mon,10:00,,fri,15:00", "mon-wed,fri,9:00-11:00/2",
+		"mon,-", "~/2", "-/2", "9:00~9:00/3", "0:00-24:00/4294967295", "mon1-tue2", "0:00,24:00-7:30", "23:00-01:00", "mon,24:00", "mon..fri", "mon1..fri"} {
 		out = append(out, c16TextIn{s})
 	}
 	malAlpha := "montuewdhfris0123456789:-~/, "
